@@ -1011,7 +1011,16 @@ def run_property(prop, tier, targets, extra_targets=()):
     for (tname, cls), items in sorted(classes.items(), key=lambda kv: str(kv[0])):
         confirmed = False
         tried = 0
-        for ob, model, env, exe, name in items[:6]:
+        # witnesses of distinct obligations first (one class can hold several kinds of deviation)
+        by_desc = {}
+        for it in items:
+            by_desc.setdefault(it[0].desc, []).append(it)
+        order = []
+        for k in range(3):
+            for d in by_desc:
+                if k < len(by_desc[d]):
+                    order.append(by_desc[d][k])
+        for ob, model, env, exe, name in order[:9]:
             tried += 1
             m2 = model
             try:
